@@ -561,12 +561,8 @@ fn fmt_one(out: &mut Vec<u8>, verb: char, fl: &Flags, a: &Arg) -> FResult<()> {
         ('G' | 'x' | 'X' | 'b', Arg::F32 { .. } | Arg::F64 { .. }) => unsup(format!("%{} of a float", verb)),
         (_, Arg::Other { ty }) => unsup(format!("fmt of a value of type {}", ty)),
         // everything else is a bad verb for the operand type
-        _ => {
-            if !verb.is_ascii_alphabetic() {
-                return unsup(format!("verb %{}", verb));
-            }
-            bad_verb(out, verb, a)
-        }
+        ('O', Arg::Int { .. } | Arg::Uint { .. }) => unsup("%O"),
+        _ => bad_verb(out, verb, a),
     }
 }
 
